@@ -216,7 +216,7 @@ def lockstep_clause(model, rep, funcs):
                     base = a.func.value
                     if isinstance(base, ast.Name):
                         base = assigns.get(base.id, base)
-                    ok = norm_src(base) == "self.to_dataframe()"
+                    ok = norm_src(Matcher(f).expr(base)) == "self.to_dataframe()"
                     params = f.param_names()[1:]
                     used = {x.id for x in ast.walk(a) if isinstance(x, ast.Name)}
                     star = {f.node.args.vararg.arg} if f.node.args.vararg else set()
